@@ -60,7 +60,7 @@ func (r *recvRecorder) before(s *sim, ev *simEvent) {
 	}
 	acceptOK := len(a.acceptCh) < cap(a.acceptCh)
 	lines := []string{fmt.Sprintf("load %d %d %d %s", a.maxReceiveBufferSize, a.maxReassemblyQueueEntries,
-		b2i(a.useInterleaving), e2eStateString(a))}
+		b2i(a.useInterleaving), e2eStateStringDups(a, false))}
 	for _, c := range data {
 		var sb strings.Builder
 		sb.WriteString("arr")
@@ -76,7 +76,7 @@ func (r *recvRecorder) after(s *sim, ev *simEvent) {
 	}
 	a := s.assoc[ev.side]
 	a.lock.RLock()
-	post := e2eStateString(a)
+	post := e2eStateStringDups(a, false)
 	ok := a.getState() == established
 	a.lock.RUnlock()
 	if !ok {
